@@ -548,6 +548,53 @@ theorem declare_fails_iff (rx : String → String → Bool) (w : World) (hinv : 
           subst this
           exact ⟨o0, rfl⟩
 
+/-- **Overrides further up the MRO never decide the outcome.**  Without a type change, if on every
+validated slot the declaration either says nothing or says (by value) what the nearest declaring
+class already holds, the merge cannot fail — whether or not some class further up holds something
+else and thereby triggers a re-validation.  So the outcome depends only on the type change and on
+how the declaration differs from the nearest declaring class; how far the identity search runs
+(`continue`/`break` after the first value, after an identical one, after a differing one) cannot
+change any slot or the outcome. -/
+theorem merge_ok_when_own_agrees_with_nearest (rx : String → String → Bool) (op name : Nat) (own : Param)
+    (supers : List (Option Param)) (h' : Param)
+    (hsup : ∀ h, some h ∈ supers → Good rx h)
+    (htc : typeChange own.ptype supers = false) (hf : firstDecl supers = some h')
+    (hagree : ∀ s o, hasSlot own.ptype s = true → nonValidated s = false → own.slots s = some o →
+      ∃ v', h'.slots s = some v' ∧ o.v = v'.v)
+    (hr : (inherit rx op name own supers).outcome.reached = true) :
+    (inherit rx op name own supers).outcome = .ok := by
+  have hmem := firstDecl_mem hf
+  obtain ⟨hfill, hok⟩ := hsup h' hmem
+  have hsub := typeChange_false_sub htc hmem
+  obtain ⟨f4, d, hp, hd, _, _, hout⟩ := inherit_reached hr
+  by_cases hrc : revalCond own supers d.v = true
+  · simp only [hrc, if_true] at hout
+    have hnn : d.v.isNone = false := by
+      simp only [revalCond, htc, Bool.false_or, Bool.and_eq_true, Bool.not_eq_true'] at hrc
+      exact hrc.2
+    have hst : ∀ s, hasSlot own.ptype s = true → nonValidated s = false →
+        cfgOf (staticFill own.ptype (mergeSearch own supers).1) s = h'.cfg s ∧ (h'.cfg s).isSome = true := by
+      intro s hs hv
+      have hs' := sub_hasSlot hsub hs
+      have hsome := hfill s hs'
+      cases hv' : h'.slots s with
+      | none => simp [hv'] at hsome
+      | some v' =>
+        have hat : slotAt s (some h') = some v' := by simp [slotAt, hs', hv']
+        have hn := nearest_of_firstDecl hf hat
+        cases ho : own.slots s with
+        | none => simp [cfgOf, staticFill, mergeSearch_fst, hs, firstSome_offers, ho, hn, Param.cfg, hv']
+        | some o =>
+          obtain ⟨w, hw, hov⟩ := hagree s o hs hv ho
+          rw [hv'] at hw; cases hw
+          simp [cfgOf, staticFill, mergeSearch_fst, hs, firstSome_offers, ho, Param.cfg, hv', hov]
+    have hval := sat_of_static_agrees rx op name own supers h' hok hsub hst hp hd hnn
+    rcases revalidate_of_validate_ok rx own.ptype f4 d.v hval with h | h
+    · rw [hout, h]
+    · rw [hout, h] at hr; cases hr
+  · simp only [hrc, Bool.false_eq_true, if_false] at hout
+    exact hout
+
 /-- `callableError` is exactly "a computed slot cannot be computed": the only such slot that can
 fail for a well-formed declaration is a Tuple's length when no class supplies one and the merged
 default has no `len`. -/
